@@ -33,7 +33,7 @@ ASSUMPTIONS = ["file, volume and stem names are [A-Z0-9] words with single inner
                "root key/semitone bytes are kept where the WAV smpl note stays in 0..127 (other values are C04's sweep)",
                "stereo pairs have equal length and equal rate", "start < end (an empty window is outside 'well-formed')"]
 EXPECTED_PROBES = ["head_not_lowest", "exact_fill", "multi_partition", "reserved_run_dir", "start_gt_0", "end_lt_n", "empty_volume",
-                   "stereo_pair", "rate_zero", "dirs_after_data", "knob_not_default", "zero_length_sample", "cli_crosscheck"]
+                   "stereo_pair", "rate_zero", "dirs_after_data", "knob_not_default", "zero_length_sample", "cli_crosscheck", "dir_spans_sectors", "file_ge_4_sectors"]
 SHRINK = {"max_attempts": 250, "max_seconds": 60.0,
           "simple_values": {"policy": ["contiguous"], "mode": ["chain"], "block": [4096], "rate": [44100]}}
 KNOBS = [2, 4, 6, 64, 510, 4096, 4096, 4096, 8192, 65536]
@@ -41,7 +41,7 @@ CLI_EVERY = 50
 
 
 def gen(rng: random.Random, tier: str, index: int) -> dict:
-    model = gen_buildable(rng)
+    model = gen_buildable(rng, many_files=0.012)
     return {"model": model, "block": pick_knob(rng, model), "cli": index % CLI_EVERY == 7}
 
 
@@ -146,6 +146,8 @@ def probes_for(res: RunResult, model: dict, lay: A.AkaiLayout) -> bool:
         for vol in part["volumes"]:
             if not vol["files"]:
                 res.probes["empty_volume"] += 1
+            if len(vol["files"]) > 340:
+                res.probes["dir_spans_sectors"] += 1
             if vol["dir"]["mode"] == "run":
                 res.probes["reserved_run_dir"] += 1
             for f in vol["files"]:
@@ -166,6 +168,8 @@ def probes_for(res: RunResult, model: dict, lay: A.AkaiLayout) -> bool:
                     res.probes["exact_fill"] += 1
                     nontrivial = True
     for _, _, fl in lay.files():
+        if len(fl.chain) >= 4:
+            res.probes["file_ge_4_sectors"] += 1
         if len(fl.chain) > 1 and fl.chain[0] != min(fl.chain):
             res.probes["head_not_lowest"] += 1
         if len(fl.chain) > 1 and fl.chain != list(range(fl.chain[0], fl.chain[0] + len(fl.chain))):
